@@ -1374,6 +1374,7 @@ func (fr *frame) baseEnv(st *State) *Env {
 		env.names["iterated"] = TV{fr.iterated, "Int", types.Typ[types.Int]}
 	}
 	env.param = func(name string) (TV, bool) { return fr.paramLookup(name, fr.entryState) }
+	env.fr = fr
 	env.addrOf = func(name string) (string, *addr, types.Type, bool) {
 		for _, fv := range fr.fn.FreeVars {
 			if fv.Name() == name {
